@@ -20,7 +20,7 @@ import (
 func init() {
 	register(&propDef{
 		ID:          "C15",
-		Explanation: "Equality with single-file generation over all trees, worker counts and schedules is not decided. Decides the structural reasons it is true: R1 every field of the event handler that has a sibling `<field>Mutex` is accessed (outside the constructor) only with that mutex in the must-held set; R2 every path handed to the file writer, os.WriteFile, os.Create or os.Remove in the per-file handler derives from that event's own file name through TrimSuffix+constant suffix or the development text-file name function (no other file is touched); R3 the bytes written are the result of format.Source over the generator's buffer, the hash gating the write is computed over that same value, and the write sits inside the hash test; R4 the handler's error reaches the error channel, every non-fatal error increments the counter, the command's final return is non-nil when the counter is positive, and in the per-file generator the errors of parsing, generation, formatting and both writes reach a return; R5 both directory walks consult skipdir.ShouldSkip for directories and return SkipDir, and ShouldSkip's true-returns are exactly vendor, node_modules, dot- and underscore-prefixed; R6 (VTA call graph) nothing reachable from generator.Generate or the parser's Parse calls time.Now, math/rand or os.Getenv, and the generator does not range over a map; R7 the wait-group Add and the semaphore acquire precede the `go` statement, the worker defers Done and the release, and the post-generation channel is closed only after the wait. R8 a slice field of the handler that per-event methods append to without copying is handed to the constructor without declared spare capacity (no make(…, len, cap>len), no re-slice). R9 every output file is replaced, not overwritten in place: os.WriteFile / os.Create, or os.OpenFile with O_TRUNC (constant-evaluated flags). R10 the lazy-mode `already up to date` test is a strict modification-time comparison. R11 the file name compiled into generated code is computed by filepath.Rel (no string surgery on paths). R12 nothing on the per-file path (the function that calls generator.Generate, its package-local callees and callers) constructs a FatalError, the one kind of error at which the command's error loop stops: a file that cannot be generated, formatted or written fails the command without ending the run. NOT decided: file-system races with other processes, fsnotify delivery, spare capacity produced by append's own growth. R13 no value that holds a sync primitive by value is copied in the generate command's packages; R14 an append on shared storage (a field reached through a receiver or parameter, a package-level variable) whose result is kept elsewhere is accepted only if the origin of that slice — followed through locals, parameters, private fields and helpers — is neither a make with capacity beyond its length nor a slice expression without explicit capacity (generalises R8). R15/R16 no error result of the generate command is dropped or detected and then not reported; R17 every return leaves locks released; R18 closures started later (timers, goroutines) read no loop variable that has moved on; R19 modification times are kept and compared as time.Time; R20 an upsert records the value it reports on. R20 also follows the test-and-set through forwarding (a method of the registry's own type, a generic helper) and decides computed answers by the path's conditions.",
+		Explanation: "Equality with single-file generation over all trees, worker counts and schedules is not decided. Decides the structural reasons it is true: R1 every field of the event handler that has a sibling `<field>Mutex` is accessed (outside the constructor) only with that mutex in the must-held set; R2 every path handed to the file writer, os.WriteFile, os.Create or os.Remove in the per-file handler derives from that event's own file name through TrimSuffix+constant suffix or the development text-file name function (no other file is touched); R3 the bytes written are the result of format.Source over the generator's buffer, the hash gating the write is computed over that same value, and the write sits inside the hash test; R4 the handler's error reaches the error channel, every non-fatal error increments the counter, the command's final return is non-nil when the counter is positive, and in the per-file generator the errors of parsing, generation, formatting and both writes reach a return; R5 both directory walks consult skipdir.ShouldSkip for directories and return SkipDir, and ShouldSkip's true-returns are exactly vendor, node_modules, dot- and underscore-prefixed; R6 (VTA call graph) nothing reachable from generator.Generate or the parser's Parse calls time.Now, math/rand or os.Getenv, and the generator does not range over a map; R7 the wait-group Add and the semaphore acquire precede the `go` statement, the worker defers Done and the release, and the post-generation channel is closed only after the wait. R8 a slice field of the handler that per-event methods append to without copying is handed to the constructor without declared spare capacity (no make(…, len, cap>len), no re-slice). R9 every output file is replaced, not overwritten in place: os.WriteFile / os.Create, or os.OpenFile with O_TRUNC (constant-evaluated flags). R10 the lazy-mode `already up to date` test is a strict modification-time comparison. R11 the file name compiled into generated code is computed by filepath.Rel (no string surgery on paths). R12 nothing on the per-file path (the function that calls generator.Generate, its package-local callees and callers) constructs a FatalError, the one kind of error at which the command's error loop stops: a file that cannot be generated, formatted or written fails the command without ending the run. NOT decided: file-system races with other processes, fsnotify delivery, spare capacity produced by append's own growth. R13 no value that holds a sync primitive by value is copied in the generate command's packages; R14 an append on shared storage (a field reached through a receiver or parameter, a package-level variable) whose result is kept elsewhere is accepted only if the origin of that slice — followed through locals, parameters, private fields and helpers — is neither a make with capacity beyond its length nor a slice expression without explicit capacity (generalises R8). R15/R16 no error result of the generate command is dropped or detected and then not reported; R17 every return leaves locks released; R18 closures started later (timers, goroutines) read no loop variable that has moved on; R19 modification times are kept and compared as time.Time; R20 an upsert records the value it reports on. R20 also follows the test-and-set through forwarding (a method of the registry's own type, a generic helper) and decides computed answers by the path's conditions. R5 also: the walk that feeds the generator leaves entries out only on walk errors, directories and pattern mismatches (no test of the entry's type bits, which do not follow symbolic links), and the skip test may be nested in the directory branch. R6 also: maps.Keys / Values / All in the generator go into slices.Sorted… or a slice that is sorted in the same function. R11 also: symbolic links are resolved (filepath.EvalSymlinks) on both operands of filepath.Rel or on neither, followed through locals, helpers and the fields the constructor stores.",
 		Assumptions: []string{"format.Source is deterministic", "sha256 collisions do not occur"},
 		Trusted:     []string{"go/types", "x/tools go/packages, go/cfg, go/ssa, callgraph/vta"},
 		Run:         runC15,
@@ -32,6 +32,7 @@ func runC15(c *Ctx) {
 	outputFilesReplaced(c, "C15.R9")
 	lazySkipIsStrict(c, "C15.R10")
 	fileNameIsRelByPathRules(c, "C15.R11")
+	relOperandsResolvedAlike(c, "C15.R11")
 	perFileErrorsAreNotFatal(c, "C15.R12")
 	locksNeverCopied(c, "C15.R13", "cmd/templ/generatecmd", "cmd/templ/generatecmd/watcher")
 	locksReleasedOnEveryReturn(c, "C15.R17", "cmd/templ/generatecmd", "cmd/templ/generatecmd/watcher")
@@ -147,10 +148,16 @@ func runC15(c *Ctx) {
 			if !fileSinks[name] && !isWriterValue(call) {
 				return true
 			}
-			if id, ok := ast.Unparen(call.Args[0]).(*ast.Ident); ok {
-				for i, po := range prms {
-					if po == info.ObjectOf(id) && isStringType(po.Type()) {
-						sinkHelpers[info.Defs[fd.Name]] = i
+			cands := []ast.Expr{call.Args[0]}
+			if name == "os.Rename" && len(call.Args) == 2 {
+				cands = []ast.Expr{call.Args[1]} // the file that is replaced is the second argument
+			}
+			for _, cand := range cands {
+				if id, ok := ast.Unparen(cand).(*ast.Ident); ok {
+					for i, po := range prms {
+						if po == info.ObjectOf(id) && isStringType(po.Type()) {
+							sinkHelpers[info.Defs[fd.Name]] = i
+						}
 					}
 				}
 			}
@@ -761,6 +768,18 @@ func runC15(c *Ctx) {
 								if isErrNil(eis.Cond) || (strings.HasPrefix(cond, "!") && strings.HasSuffix(cond, ".IsDir()")) {
 									continue
 								}
+								// the skip test nested in the directory branch: if e.IsDir() { if ShouldSkip(p) { return SkipDir }; return nil }
+								if eis.Pos() <= is.Pos() && is.End() <= eis.End() && strings.HasSuffix(cond, ".IsDir()") && !strings.HasPrefix(cond, "!") {
+									first := true
+									for _, inner := range eis.Body.List {
+										if inner.Pos() < is.Pos() && containsReturn(inner) {
+											first = false
+										}
+									}
+									if first {
+										continue
+									}
+								}
 								good = false
 								earlyWhy = "the callback returns under `" + cond + "` before the skip test, so a directory that should be skipped is entered"
 							}
@@ -769,6 +788,62 @@ func runC15(c *Ctx) {
 					return true
 				})
 				// the skip test must apply to directories: either guarded by IsDir in the same condition or after a `!IsDir → return nil`
+			}
+			// the walk that FEEDS the generator (its callback sends an event per file): an entry is left out only because of
+			// a walk error, because it is a directory, or because its name does not match the pattern. Any other test —
+			// on the entry's type bits, its size, its mode — leaves files out that the per-file handler (which stats the
+			// path and follows symbolic links) would generate: a linked .templ file is silently not generated, a linked
+			// orphan not removed.
+			if fl != nil {
+				sends := false
+				ast.Inspect(fl.Body, func(m ast.Node) bool {
+					if _, isSend := m.(*ast.SendStmt); isSend {
+						sends = true
+					}
+					return true
+				})
+				if sends {
+					winfo := wp.TypesInfo
+					allowed := func(atom ast.Expr) bool {
+						atom = ast.Unparen(atom)
+						if ue, isU := atom.(*ast.UnaryExpr); isU && ue.Op == token.NOT {
+							atom = ast.Unparen(ue.X)
+						}
+						if isErrNil(atom) {
+							return true
+						}
+						if be, isB := atom.(*ast.BinaryExpr); isB && (be.Op == token.NEQ || be.Op == token.EQL) && (types.ExprString(be.Y) == "nil" || types.ExprString(be.X) == "nil") {
+							return true
+						}
+						if cc, isC := atom.(*ast.CallExpr); isC {
+							if se, isS := ast.Unparen(cc.Fun).(*ast.SelectorExpr); isS {
+								switch se.Sel.Name {
+								case "IsDir", "MatchString", "Match", "ShouldSkip", "Err":
+									return true
+								}
+							}
+							if f2 := calleeOf(winfo, cc); f2 != nil && f2.Pkg() != nil && strings.HasPrefix(f2.Pkg().Path(), modPath) {
+								return true // a predicate of the module over the path (judged where it is defined)
+							}
+						}
+						return false
+					}
+					extra := ""
+					ast.Inspect(fl.Body, func(m ast.Node) bool {
+						eis, isIf := m.(*ast.IfStmt)
+						if !isIf || !containsReturn(eis.Body) {
+							return true
+						}
+						for _, atom := range boolAtomsRaw(eis.Cond) {
+							if !allowed(atom) && extra == "" {
+								extra = "`" + types.ExprString(atom) + "` at " + c.pos(eis.Pos())
+							}
+						}
+						return true
+					})
+					c.check(extra == "", "C15.R5", funcKey(wp, fd)+"|walk-leaves-out-only-directories-and-mismatches", c.pos(call.Pos()), "the feeding walk returns early only on walk errors, directories and names that do not match",
+						fd.Name.Name+": the walk that feeds the generator leaves entries out on a further test ("+extra+"). A directory entry's type bits describe the entry itself and do not follow symbolic links, while the per-file handler stats the path: a .templ file that is a link to a file is silently not generated and a linked orphan is not removed — `templ generate` exits 0 with output that differs from generating each file on its own")
+				}
 			}
 			c.check(good, "C15.R5", key, c.pos(call.Pos()), "the walk returns SkipDir when skipdir.ShouldSkip says so",
 				fd.Name.Name+": the directory walk does not consult skipdir.ShouldSkip / return SkipDir before anything else can return: files under vendor, node_modules, dot- and underscore-directories would be generated, deleted or watched. "+earlyWhy)
@@ -894,6 +969,80 @@ func runC15(c *Ctx) {
 			nrange++
 			c.viol("C15.R6", funcKey(gp, fd)+"|map-range", c.pos(rs.Pos()), "the generator ranges over a map: emission order would depend on Go's randomised map iteration")
 		}
+	}
+	// the iterator forms of the same thing: maps.Keys / maps.Values / maps.All hand the entries out in map order, unless the
+	// sequence goes straight into slices.Sorted…, or the slice collected from it is sorted in the same function
+	for _, fd := range allFuncDecls(gp) {
+		if fd.Body == nil {
+			continue
+		}
+		ginfo := gp.TypesInfo
+		var stack []ast.Node
+		k := 0
+		ast.Inspect(fd.Body, func(x ast.Node) bool {
+			if x == nil {
+				stack = stack[:len(stack)-1]
+				return true
+			}
+			stack = append(stack, x)
+			call, ok := x.(*ast.CallExpr)
+			if !ok {
+				return true
+			}
+			fn := calleeOf(ginfo, call)
+			if fn == nil || fn.Pkg() == nil || !(fn.Pkg().Path() == "maps" || strings.HasSuffix(fn.Pkg().Path(), "/maps")) {
+				return true
+			}
+			switch fn.Name() {
+			case "Keys", "Values", "All":
+			default:
+				return true
+			}
+			nrange++
+			k++
+			sorted := false
+			var holder types.Object
+			for i := len(stack) - 2; i >= 0; i-- {
+				switch t := stack[i].(type) {
+				case *ast.CallExpr:
+					if ofn := calleeOf(ginfo, t); ofn != nil && strings.HasPrefix(ofn.Name(), "Sorted") {
+						sorted = true
+					}
+				case *ast.AssignStmt:
+					if len(t.Lhs) == 1 {
+						if id, ok := t.Lhs[0].(*ast.Ident); ok {
+							holder = ginfo.ObjectOf(id)
+						}
+					}
+				case *ast.RangeStmt:
+					if t.X.Pos() <= call.Pos() && call.End() <= t.X.End() {
+						holder = nil
+					}
+				}
+			}
+			if !sorted && holder != nil {
+				ast.Inspect(fd.Body, func(y ast.Node) bool {
+					sc, ok := y.(*ast.CallExpr)
+					if !ok || sc.Pos() < call.Pos() {
+						return true
+					}
+					sfn := calleeOf(ginfo, sc)
+					if sfn == nil || sfn.Pkg() == nil || !(sfn.Pkg().Path() == "sort" || sfn.Pkg().Path() == "slices") || !(strings.HasPrefix(sfn.Name(), "Sort") || sfn.Name() == "Strings" || sfn.Name() == "Ints" || sfn.Name() == "Stable" || sfn.Name() == "Slice" || sfn.Name() == "SliceStable") {
+						return true
+					}
+					for _, a := range sc.Args {
+						if id, ok := ast.Unparen(a).(*ast.Ident); ok && ginfo.ObjectOf(id) == holder {
+							sorted = true
+						}
+					}
+					return true
+				})
+			}
+			if !sorted {
+				c.viol("C15.R6", fmt.Sprintf("%s|map-sequence#%d", funcKey(gp, fd), k), c.pos(call.Pos()), "the generator takes "+fn.Pkg().Name()+"."+fn.Name()+" of a map and uses the entries in the order they come — Go's randomised map order — without sorting them: what is emitted from them changes from run to run, so generating an unchanged tree again rewrites its files, and two workers' results differ from a single one's")
+			}
+			return true
+		})
 	}
 	controlMapRange(c)
 	c.ok("C15.R6", pkgGenerator+"|no-map-iteration", "", fmt.Sprintf("%d range-over-map statements in package generator", nrange))
